@@ -587,6 +587,8 @@ pub fn gen(a: &Args) {
 pub const REG_OPS: &[(&str, u32)] = &[
     ("__mine", 1), ("_x", 2), ("__min", 3), ("a__b", 4), ("f", 5), ("f", 6), ("_x", 7), ("__to_array", 8), ("log1", 9),
     ("_", 10), ("__", 11),
+    // ordinary names with the handles of __min / __max / __sort / __to_array (N-C18-1, repaired by d80a79a)
+    ("tuewgsg", 12), ("zjyliqo", 13), ("catpprn", 14), ("hcsvhfo", 15),
 ];
 pub const REG_PROBES: &[&str] = &["f", "_x", "a__b", "log1", "__mine", "g", "_", "__"];
 
@@ -618,13 +620,37 @@ fn registration_history(ops: &[(&str, u32)], probes: &[&str]) -> Vec<bool> {
         out_bools.push(matches!(r, Err(ref e) if matches!(e.payload, ExecutionErrorPayload::ProcedureNotFound(_))));
         vm.clear();
     }
+    // the library still works: the same program on this VM and on a VM without the history
+    let m = || {
+        let arr = || vmgen::array(vec![vmgen::int(3), vmgen::int(1), vmgen::int(2)]);
+        vmgen::module_std(vec![("main", vmgen::func(&[], vec![
+            vmgen::sg("a", vmgen::call("min", vec![arr()])),
+            vmgen::sg("b", vmgen::call("max", vec![arr()])),
+            vmgen::sg("c", vmgen::call("sorted", vec![arr()])),
+            vmgen::sg("d", vmgen::call("to_array", vec![arr()])),
+        ]))])
+    };
+    let prog = compile(m(), None).expect("std program");
+    let globals = |vm: &Vm<'static, Host>| -> Vec<Option<String>> {
+        ["a", "b", "c", "d"].iter().map(|n| vm.read_var_by_name(n, &prog.variables).map(|v| tree(v, TREE_DEPTH))).collect()
+    };
+    vm.get_aux_mut().log.clear();
+    let r = vm.run(&prog);
+    let g = globals(&vm);
+    let logged = vm.get_aux().log.iter().any(|e| e.starts_with("REG"));
+    let mut fresh = new_vm(1000);
+    let rf = fresh.run(&prog);
+    let gf = globals(&fresh);
+    out_bools.push(r.is_ok());
+    out_bools.push(rf.is_ok() && g == gf && g.iter().all(|x| x.is_some()));
+    out_bools.push(!logged);
     out_bools
 }
 
 /// `cao-verif-harness c18-witness`: the reservation of the library's names is by NAME, the table of callables is keyed
 /// by the 32-bit FNV-1a hash of the name: "tuewgsg" has the handle of "__min", is accepted by
-/// register_native_function and replaces the library's native (Properties/C18.v
-/// C18_std_native_shadowed_by_collision).
+/// register_native_function and replaced the library's native (finding N-C18-1); since d80a79a the registration is
+/// rejected and std.min keeps working (Properties/C18.v C18_colliding_name_rejected).
 pub fn c18_witness() {
     use std::str::FromStr;
     let h1 = Handle::from_str("tuewgsg").unwrap();
